@@ -230,6 +230,12 @@ pub fn blocks(thorough: bool) -> Vec<Block> {
         b.push(Block::new(u_prefix_suffix2(5), vec![Cfg::new(D), Cfg::new(W), Cfg::new(R), Cfg::new(D | R), Cfg::new(D | W), Cfg::new(W | R)], "d, w, r, d+r, d+w, w+r"));
         b.push(Block::new(u_kind_triples(), five.clone(), "{}, r, d+w, r+d, i"));
     }
+    if thorough {
+        // the thorough space is a superset of the quick one: every quick block first, then the deeper ones
+        let mut all = blocks(false);
+        all.extend(b);
+        return all;
+    }
     b
 }
 
